@@ -18,14 +18,14 @@ theorem pfnDecls_eq_find (ns : Nat) (ne : Bool) (hns : ns ≠ Env.noNamespace) (
     obtain ⟨k, v⟩ := d
     intro s1 s2 hs
     by_cases h : k ∈ s1
-    · rw [pfnDecls_cons_seen h, traverseDecls_cons_seen ((hs k).1 h)]
+    · rw [pfnDecls_cons_seen h, traverseDecls_cons_seen_sc ((hs k).1 h)]
       exact ih s1 s2 hs
     · have h2 : k ∉ s2 := fun hk => h ((hs k).2 hk)
       have hs' : ∀ x, x ∈ k :: s1 ↔ x ∈ s2 ++ [k] := by
         intro x
         rw [List.mem_cons, List.mem_append, List.mem_singleton, hs x]
         exact Or.comm
-      rw [traverseDecls_cons_new h2]
+      rw [traverseDecls_cons_new_sc h2]
       cases hu : pfnUsable ne k with
       | false =>
         rw [pfnDecls_cons_skip h hu]
